@@ -11,7 +11,7 @@ PROPS = {
     "C18": {
         "engine": "D", "level": "exploration",
         "tiers": {"quick": {"batches": 16, "runs": 1500, "budget_s": 40, "floor_runs": 4000},
-                  "thorough": {"batches": 64, "runs": 12000, "budget_s": 400, "floor_runs": 100000}},
+                  "thorough": {"batches": 32, "runs": 20000, "budget_s": 900, "floor_runs": 300000}},
         "rule": "one run = one seeded history of BiMap operations (construct / insert_left / insert_right / "
                 "__setitem__ / delete_left / delete_right / __delitem__ / lookups) over a 7-symbol alphabet incl. "
                 "0, '' and (), compared step by step with a two-dict reference model; a run is non-trivial when it "
@@ -24,7 +24,7 @@ PROPS = {
     "C01": {
         "engine": "B", "level": "exploration",
         "tiers": {"quick": {"batches": 16, "runs": 250, "budget_s": 50, "floor_runs": 800},
-                  "thorough": {"batches": 64, "runs": 3000, "budget_s": 550, "floor_runs": 30000}},
+                  "thorough": {"batches": 32, "runs": 5000, "budget_s": 900, "floor_runs": 60000}},
         "rule": "one run = one well-formed builder program on one shared Hugr: root drawn among Module / Dfg / Function / Cfg / Conditional / TailLoop / TrackedDfg; every open builder (function body, nested DFG, case, basic block, loop body) and every container controller (module, conditional, CFG) is an actor and the seeded scheduler picks which one makes the next public call (add_op / add / extend / load / call / load_function / add_nested / add_cfg / add_conditional / add_if / add_else / add_tail_loop / define_function / declare_function / add_state_order / add_entry / add_block / add_successor / branch / branch_exit / set_outputs ...); type-directed generation over copyable, linear, sum, tuple, function, extension and variable types with Ext and Dom wires, multi-output ops partially used, constants in outer scopes, recursion, polymorphic and row-polymorphic callees; the serialised result is judged by a reference validator written from validate.rs; non-trivial = >= 3 builder calls; distinct = distinct event-log digests",
         "real": ["all builders (Dfg, Function, Module, Cfg/Block, Conditional/Case/If/Else, TailLoop, TrackedDfg), ops, tys, val, graph store, JSON serialiser"],
         "stub": ["hugr validate (Rust) -> oracles/refvalidate.py"],
@@ -39,19 +39,19 @@ PROPS = {
     "C02": {
         "engine": "A+B+C", "level": "exploration",
         "tiers": {"quick": {"batches": 16, "runs": 120, "budget_s": 70, "floor_runs": 800},
-                  "thorough": {"batches": 64, "runs": 2000, "budget_s": 800, "floor_runs": 30000}},
+                  "thorough": {"batches": 32, "runs": 2500, "budget_s": 900, "floor_runs": 30000}},
         "rule": "one run = a HUGR with a history: (i) an engine-B builder product, (ii) an engine-A client history (add/delete/insert, metadata from everything JSON carries, ops with type parameters, extension deltas, descriptions, type args), or (iii) an engine-B product mutated by engine-A clients (delete leaves, reuse freed indices, add/delete links, insert); then to_json -> load_json in the same process or, in a quarter of the runs, in a reader node started as a separate interpreter with another PYTHONHASHSEED; clauses: load-succeeds, doc-fixpoint, op-encoding, hierarchy with child order, metadata, link multiset incl. order links; non-trivial = >= 3 calls; distinct = distinct event-log digests", "real": ["Hugr.to_json / load_json, _serialization models (pydantic), ops/tys/val codecs, graph store, builders", "the reader node is a real second interpreter (fresh module state, different PYTHONHASHSEED)"], "stub": ["the storage between writer and reader is a pipe owned by the simulator (no storage faults have an oracle for this property)"], "expected_probes": ["serialised_after_deletion", "serialised_after_index_reuse", "non_contiguous_indices", "index_order_not_hierarchy_consistent", "restart_read"], "technique": "seeded build + mutation histories, then a write / restart / read cycle: the reader is a fresh interpreter with a different hash seed and only the document crosses; observation-equality oracle clause by clause", "level_text": "The HUGRs the statement quantifies over are reachable only through histories (deletion, index reuse, interleaved builders), and the second party of a round trip is another process: the check generates the histories with engines A and B and reads the document back both in-process and in a restarted interpreter with a different hash seed, comparing the loaded HUGR's public observation and re-serialised document with the original's.", "level_note": "Trusted: the correspondence rule in engines/c_persist.py (root to root, k-th child to k-th child; where increasing index is hierarchy-consistent it must be the order-preserving renumbering the statement licenses). Order links of the original (offset -1) are compared at the order-port offset refsem predicts. NaN/inf metadata excluded (not JSON). Engine-A order links only on ops that have an order port.",
     },
     "C03": {
         "engine": "A+B+C", "level": "exploration",
         "tiers": {"quick": {"batches": 16, "runs": 50, "budget_s": 70, "floor_runs": 400},
-                  "thorough": {"batches": 64, "runs": 1200, "budget_s": 800, "floor_runs": 20000}},
+                  "thorough": {"batches": 32, "runs": 700, "budget_s": 900, "floor_runs": 8000}},
         "rule": "same workloads as C02; every emitted SerialHugr document (and Package document, and the document a restarted reader node re-emits) is validated against specification/schema/hugr_schema_strict_live.json, checked for index sanity, and - for HUGRs whose links attach only to ports their operations have (all builder products; engine-A histories in in-range mode) - every in-memory link must be addressed in the document at the offset refsem predicts from the serialised op (value port = signature position, static port after the value inputs, order port after those), independently of how many ports are connected; non-trivial = >= 3 calls; distinct = distinct event-log digests", "real": ["Hugr / Package serialisation, _serialization models", "jsonschema validation against the published strict schema file", "reader node (separate interpreter) for re-emitted documents"], "stub": ["Rust reader (serialize.rs) -> oracles/wire.py + refsem.py"], "expected_probes": ["serialised_after_deletion", "serialised_after_index_reuse", "index_order_not_hierarchy_consistent", "restart_read"], "technique": "seeded build + mutation histories (deletion, index reuse, partially connected multi-output nodes with order edges), documents judged by the published strict JSON schema + index sanity + a reader-side port-addressing model; a restarted reader node re-emits and is judged too", "level_text": "What can break the wire format is history: deletions and index reuse (index sanity), and the order in which builders happened to link ports (order-edge offsets). The check reuses the C02 workloads and judges every emitted document with the published strict schema and with an independent model of the reader's addressing contract (serialize.rs), never with hugr-py's own port counters.", "level_note": "Trusted: jsonschema 4.26 (offline wheelhouse, installed into /verif/.deps), the published strict schema file, oracles/refsem.py for port addressing, oracles/wire.py. Extension documents are validated in C10's check.",
     },
     "C04": {
         "engine": "A", "level": "exploration",
         "tiers": {"quick": {"batches": 16, "runs": 180, "budget_s": 70, "floor_runs": 1200},
-                  "thorough": {"batches": 64, "runs": 2500, "budget_s": 900, "floor_runs": 50000}},
+                  "thorough": {"batches": 32, "runs": 2500, "budget_s": 900, "floor_runs": 30000}},
         "rule": "one run = 1-3 client actors sharing one Hugr (plus 0-2 auxiliary HUGRs with their own actor, used as "
                 "insertion sources); the seeded scheduler picks which actor makes the next call among add_node / add_const / "
                 "add_link / add_order_link / delete_link (existing, parallel, middle-of-fan-out, absent) / delete_node (leaf) / "
@@ -68,7 +68,7 @@ PROPS = {
     "C08": {
         "engine": "A+B", "level": "exploration",
         "tiers": {"quick": {"batches": 16, "runs": 500, "budget_s": 45, "floor_runs": 1500},
-                  "thorough": {"batches": 64, "runs": 5000, "budget_s": 500, "floor_runs": 50000}},
+                  "thorough": {"batches": 32, "runs": 8000, "budget_s": 900, "floor_runs": 100000}},
         "rule": "one run = engine-A history on a target HUGR and 1-2 source HUGRs (each with its own actor, so sources have "
                 "holes, reused indices, multi-linked ports, order links and metadata) with insert_hugr steps at scheduler-chosen "
                 "points, or an engine-B builder program using insert_nested / insert_cfg / insert_conditional / insert_tail_loop; "
@@ -106,7 +106,7 @@ PROPS = {
     "C10": {
         "engine": "C+E", "level": "exploration",
         "tiers": {"quick": {"batches": 16, "runs": 300, "budget_s": 50, "floor_runs": 1000},
-                  "thorough": {"batches": 64, "runs": 4000, "budget_s": 550, "floor_runs": 40000}},
+                  "thorough": {"batches": 32, "runs": 5000, "budget_s": 900, "floor_runs": 60000}},
         "rule": "one run = a registry-building history on 1-3 extensions through the public API (Extension(...), add_type_def with "
                 "explicit / from-params bounds and any index list, add_op_def with mono / polymorphic / plain-FunctionType / binary "
                 "signatures and requirement lists, add_extension_value, register_op, re-adding under an existing name, adding one "
@@ -127,7 +127,7 @@ PROPS = {
     "C11": {
         "engine": "E", "level": "exploration",
         "tiers": {"quick": {"batches": 16, "runs": 250, "budget_s": 50, "floor_runs": 800},
-                  "thorough": {"batches": 64, "runs": 3000, "budget_s": 550, "floor_runs": 30000}},
+                  "thorough": {"batches": 32, "runs": 3000, "budget_s": 900, "floor_runs": 40000}},
         "rule": "one run = either (a) an engine-B product (std ops and types, collections array/list nested in sums, function "
                 "types and type arguments, verif.q ops, ops/types of an extension no early registry knows) stored as a document, "
                 "loaded back (all ops and types opaque) and driven through a session of resolve_extensions steps against an "
@@ -146,7 +146,7 @@ PROPS = {
     "C12": {
         "engine": "B", "level": "exploration",
         "tiers": {"quick": {"batches": 16, "runs": 200, "budget_s": 50, "floor_runs": 800},
-                  "thorough": {"batches": 64, "runs": 2500, "budget_s": 550, "floor_runs": 30000}},
+                  "thorough": {"batches": 32, "runs": 3000, "budget_s": 900, "floor_runs": 40000}},
         "rule": "one run = a Module-rooted engine-B builder program (interleaved builders; functions called more than once, "
                 "constants loaded more than once and from outer scopes, order edges, nested control flow, polymorphic callees) that "
                 "the C01 reference validator accepts; Hugr.to_model() is walked as dataclasses and compared with the HUGR: regions "
@@ -163,7 +163,7 @@ PROPS = {
     "C13": {
         "engine": "B", "level": "exploration",
         "tiers": {"quick": {"batches": 16, "runs": 400, "budget_s": 50, "floor_runs": 1500},
-                  "thorough": {"batches": 64, "runs": 4000, "budget_s": 550, "floor_runs": 40000}},
+                  "thorough": {"batches": 32, "runs": 6000, "budget_s": 900, "floor_runs": 80000}},
         "rule": "one run = a well-formed engine-B builder program (interleaved open builders) into which exactly one faulty "
                 "request of a drawn kind (15 kinds, see fault_kinds_fired) is injected at a drawn step of a scheduler-chosen actor "
                 "at any depth; the call must raise, with the documented exception class; the run stops at the fault. Runs in which "
@@ -179,7 +179,7 @@ PROPS = {
     "C15": {
         "engine": "D", "level": "exploration",
         "tiers": {"quick": {"batches": 16, "runs": 2500, "budget_s": 45, "floor_runs": 3000},
-                  "thorough": {"batches": 64, "runs": 20000, "budget_s": 500, "floor_runs": 100000}},
+                  "thorough": {"batches": 32, "runs": 30000, "budget_s": 900, "floor_runs": 300000}},
         "rule": "one run = one seeded sequence of track_wire / track_wires / track_inputs / untrack_wire / add / extend / "
                 "tracked_wire / set_indexed_outputs / set_tracked_outputs over a circuit of 0-4 qubit/bool inputs with mixed "
                 "integer and wire arguments and optional per-node metadata, executed in lock-step on a TrackedDfg and on a "
@@ -194,7 +194,7 @@ PROPS = {
     "C16": {
         "engine": "A+B", "level": "exploration",
         "tiers": {"quick": {"batches": 16, "runs": 300, "budget_s": 50, "floor_runs": 1000},
-                  "thorough": {"batches": 64, "runs": 2500, "budget_s": 550, "floor_runs": 30000}},
+                  "thorough": {"batches": 32, "runs": 4000, "budget_s": 900, "floor_runs": 50000}},
         "rule": "one run = an engine-B builder program (handles returned by add_op / add / extend / call / load and by container "
                 "builders at the moment their outputs become known: nested DFG, conditional, tail loop, CFG), or an engine-A "
                 "history (add_node with explicit / without count, re-issued child handles), or direct add_node(num_outs=n) for "
@@ -212,7 +212,7 @@ PROPS = {
     "C19": {
         "engine": "D", "level": "exploration",
         "tiers": {"quick": {"batches": 16, "runs": 1500, "budget_s": 40, "floor_runs": 4000},
-                  "thorough": {"batches": 64, "runs": 12000, "budget_s": 400, "floor_runs": 100000}},
+                  "thorough": {"batches": 32, "runs": 20000, "budget_s": 900, "floor_runs": 300000}},
         "rule": "one run = 1-4 shots, each a seeded log of append(tag, value) steps mixing whole-register and indexed "
                 "writes to the same three registers (ints, bools, lists, optionally non-bits / nested lists / tags that "
                 "do not fit the pattern); after every append to_register_bits is compared with a replay of the log into "
@@ -227,7 +227,7 @@ PROPS = {
     "C20": {
         "engine": "B", "level": "exploration",
         "tiers": {"quick": {"batches": 16, "runs": 150, "budget_s": 50, "floor_runs": 600},
-                  "thorough": {"batches": 64, "runs": 2000, "budget_s": 550, "floor_runs": 20000}},
+                  "thorough": {"batches": 32, "runs": 1200, "budget_s": 900, "floor_runs": 15000}},
         "rule": "one run = an engine-B builder program of any root kind (order, constant, function and control-flow edges, "
                 "metadata, nested containers; interleaved builders) rendered with the default configuration and with a drawn "
                 "palette x qualify_op_name; the DOT source is parsed and compared with the HUGR: one node statement per node with "
